@@ -49,7 +49,7 @@ Consume ==
                /\ UNCHANGED <<holder, supported, nacq, ncalls, done>>
        [] e.e = "Stall" -> Reject(IF supported THEN "C13:call-never-completed-threads-blocked-forever" ELSE "") /\ UNCHANGED <<holder, frames, supported, nacq, ncalls, done>>
        [] e.e = "End" ->
-            /\ Reject(IF supported /\ ~e.stalled /\ (holder # None \/ \E t \in Thr : frames[t] # << >>) THEN "C13:lock-or-call-outstanding-at-the-end" ELSE "")
+            /\ Reject(IF supported /\ ~e.stalled /\ ~("died" \in DOMAIN e /\ e.died) /\ (holder # None \/ \E t \in Thr : frames[t] # << >>) THEN "C13:lock-or-call-outstanding-at-the-end" ELSE "")
             /\ done' = TRUE /\ UNCHANGED <<holder, frames, supported, nacq, ncalls>>
        [] OTHER -> UNCHANGED <<rej, holder, frames, supported, nacq, ncalls, done>>
   /\ l' = l + 1
